@@ -1155,6 +1155,95 @@ def normalise_counted_while(trees):
         ast.fix_missing_locations(tree)
 
 
+def inline_literal_constants(trees):
+    """NAME = <literal> at module level (a number, string, None, bool, or a tuple of those; an UPPER_CASE name bound exactly
+    once in the whole package, never declared global, never the target of another store) is replaced by the literal wherever
+    the bare name is read in a function that does not bind the name itself.  Class-level `NAME = <literal>` read as
+    `self.NAME` / `cls.NAME` / `ClassName.NAME` likewise, when no method stores that attribute.  The rules then see the
+    number or the string, whatever it is called."""
+    import copy
+
+    def literal(v):
+        if isinstance(v, ast.Constant) and isinstance(v.value, (int, float, str, bool, type(None))):
+            return True
+        if isinstance(v, ast.UnaryOp) and isinstance(v.op, ast.USub) and isinstance(v.operand, ast.Constant) and isinstance(v.operand.value, (int, float)):
+            return True
+        if isinstance(v, ast.Tuple) and v.elts and all(literal(e) for e in v.elts):
+            return True
+        return False
+
+    mod_defs, cls_defs = {}, {}
+    stores = {}
+    attr_stores = set()
+    for rel, tree in trees.items():
+        for n in ast.walk(tree):
+            if isinstance(n, ast.Name) and isinstance(n.ctx, (ast.Store, ast.Del)):
+                stores[n.id] = stores.get(n.id, 0) + 1
+            elif isinstance(n, (ast.Global, ast.Nonlocal)):
+                for nm in n.names:
+                    stores[nm] = stores.get(nm, 0) + 2
+            elif isinstance(n, ast.Attribute) and isinstance(n.ctx, (ast.Store, ast.Del)):
+                attr_stores.add(n.attr)
+            elif isinstance(n, (ast.FunctionDef, ast.ClassDef)):
+                stores[n.name] = stores.get(n.name, 0) + 2
+            elif isinstance(n, ast.arg):
+                stores[n.arg] = stores.get(n.arg, 0) + 2
+            elif isinstance(n, ast.alias):
+                nm = (n.asname or n.name).split('.')[0]
+                if nm != '*':
+                    stores[nm] = stores.get(nm, 0) + 2
+        for st in tree.body:
+            if isinstance(st, ast.Assign) and len(st.targets) == 1 and isinstance(st.targets[0], ast.Name) and st.targets[0].id.isupper() and literal(st.value):
+                mod_defs.setdefault(st.targets[0].id, []).append(st.value)
+            if isinstance(st, ast.ClassDef) and not any(ast.unparse(b_).split('.')[-1] in ('Enum', 'IntEnum', 'Flag', 'IntFlag', 'NamedTuple') for b_ in st.bases):
+                for cst in st.body:
+                    if isinstance(cst, ast.Assign) and len(cst.targets) == 1 and isinstance(cst.targets[0], ast.Name) and cst.targets[0].id.isupper() and literal(cst.value):
+                        cls_defs.setdefault(cst.targets[0].id, []).append((st.name, cst.value))
+    consts = {k: v[0] for k, v in mod_defs.items() if len(v) == 1 and stores.get(k, 0) == 1 and k not in cls_defs}
+    # NAME = [A, B, C] / (A, B, C) of such constants (a table of choices), never mutated: one more level
+    mutated = set()
+    for tree in trees.values():
+        for n in ast.walk(tree):
+            if isinstance(n, ast.Call) and isinstance(n.func, ast.Attribute) and isinstance(n.func.value, ast.Name) and n.func.attr in ('append', 'extend', 'insert', 'pop', 'remove', 'clear', 'sort', 'reverse'):
+                mutated.add(n.func.value.id)
+            if isinstance(n, ast.Subscript) and isinstance(n.ctx, (ast.Store, ast.Del)) and isinstance(n.value, ast.Name):
+                mutated.add(n.value.id)
+    for tree in trees.values():
+        for st in tree.body:
+            if isinstance(st, ast.Assign) and len(st.targets) == 1 and isinstance(st.targets[0], ast.Name) and st.targets[0].id.isupper() and isinstance(st.value, (ast.List, ast.Tuple)) \
+                    and st.value.elts and all(literal(e) or (isinstance(e, ast.Name) and e.id in consts) for e in st.value.elts) and not literal(st.value):
+                nm = st.targets[0].id
+                if stores.get(nm, 0) == 1 and nm not in mutated and nm not in cls_defs and nm not in consts:
+                    v2 = copy.deepcopy(st.value)
+                    v2.elts = [copy.deepcopy(consts[e.id]) if isinstance(e, ast.Name) else e for e in v2.elts]
+                    consts[nm] = v2
+    cconsts = {k: v[0] for k, v in cls_defs.items() if len(v) == 1 and stores.get(k, 0) == 1 and k not in attr_stores and k not in mod_defs}
+    if not consts and not cconsts:
+        return
+
+    class T(ast.NodeTransformer):
+        def visit_Name(self, node):
+            if isinstance(node.ctx, ast.Load) and node.id in consts:
+                return ast.copy_location(copy.deepcopy(consts[node.id]), node)
+            return node
+
+        def visit_Attribute(self, node):
+            self.generic_visit(node)
+            if isinstance(node.ctx, ast.Load) and node.attr in cconsts and isinstance(node.value, ast.Name) and node.value.id in ('self', 'cls', cconsts[node.attr][0]):
+                return ast.copy_location(copy.deepcopy(cconsts[node.attr][1]), node)
+            return node
+
+    for tree in trees.values():
+        for fn in [n for n in ast.walk(tree) if isinstance(n, (ast.FunctionDef, ast.Lambda))]:
+            pass
+        # only inside function bodies and class bodies' methods (the defining assignments themselves stay)
+        for n in ast.walk(tree):
+            if isinstance(n, ast.FunctionDef):
+                n.body = [T().visit(st) for st in n.body]
+                n.args.defaults = [T().visit(d) for d in n.args.defaults]
+        ast.fix_missing_locations(tree)
+
+
 def synthesise_dataclass_init(trees):
     """@dataclass class K: a: int; b: int = 0; def __post_init__(self): ...   gets the __init__ the decorator would generate:
     def __init__(self, a, b=0): self.a = a; self.b = b; <body of __post_init__>.  Fields with field(...) / InitVar / ClassVar
@@ -1492,6 +1581,7 @@ class Repo:
                 self.modname[rel] = rel[:-3].replace(os.sep, '.')
         try:
             normalise_module_qualified_names(self.trees)
+            inline_literal_constants(self.trees)
             normalise_namedtuple_classes(self.trees)
             synthesise_dataclass_init(self.trees)
             normalise_partialmethods(self.trees)
